@@ -54,6 +54,17 @@ static std::vector<Op> makeOps(int variant) {
     add("query.calcM", false, [](Fixture& F, State& s) { F.sys.realize(s, Stage::Position); Matrix M; F.matter.calcM(s, M); });
     add("query.ABI+CBI", false, [](Fixture& F, State& s) { F.sys.realize(s, Stage::Position); F.matter.realizeCompositeBodyInertias(s); F.matter.realizeArticulatedBodyInertias(s); });
     add("query.gravityForces+PE", false, [](Fixture& F, State& s) { F.sys.realize(s, Stage::Position); (void)F.gravity.getBodyForces(s); (void)F.sys.calcPotentialEnergy(s); });
+    add("query.calcAccelerationIgnoringConstraints(other forces)", false, [](Fixture& F, State& s) {
+        F.sys.realize(s, Stage::Dynamics);
+        Vector f(s.getNU()); for (int i = 0; i < s.getNU(); ++i) f[i] = 3 + i;
+        Vector_<SpatialVec> Fb(F.matter.getNumBodies(), SpatialVec(Vec3(1, -2, 0.5), Vec3(2, 1, -1)));
+        Vector udot; Vector_<SpatialVec> A;
+        F.matter.calcAccelerationIgnoringConstraints(s, f, Fb, udot, A);      // a const operator: must leave no trace in the State
+    });
+    add("query.calcMInv+multiplyByMInv", false, [](Fixture& F, State& s) {
+        F.sys.realize(s, Stage::Position); Matrix MI; F.matter.calcMInv(s, MI);
+        Vector v(s.getNU()), r; for (int i = 0; i < s.getNU(); ++i) v[i] = 1 - i; F.matter.multiplyByMInv(s, v, r);
+    });
     // continuous variables, two values each
     for (int v = 0; v < 2; ++v) {
         std::string sv = std::to_string(v);
@@ -122,6 +133,7 @@ static std::vector<double> observe(Fixture& F, State& s, std::vector<std::string
     mark("qerr"); for (int i = 0; i < s.getNQErr(); ++i) o.push_back(s.getQErr()[i]);
     mark("uerr"); for (int i = 0; i < s.getNUErr(); ++i) o.push_back(s.getUErr()[i]);
     mark("udoterr"); for (int i = 0; i < s.getNUDotErr(); ++i) o.push_back(s.getUDotErr()[i]);
+    mark("mobilizerReactions"); { Vector_<SpatialVec> R; F.matter.calcMobilizerReactionForces(s, R); for (int i = 0; i < R.size(); ++i) { push(o, R[i][0]); push(o, R[i][1]); } }
     mark("gravityBodyForces"); { const Vector_<SpatialVec>& g = F.gravity.getBodyForces(s); for (int i = 0; i < g.size(); ++i) { push(o, g[i][0]); push(o, g[i][1]); } }
     mark("bushing"); { for (int i = 0; i < 6; ++i) o.push_back(F.bushing.getF(s)[i]); o.push_back(F.bushing.getPowerDissipation(s)); }
     if (labels) labels->resize(o.size(), labels->back());
